@@ -37,10 +37,12 @@ Proof. destruct p; simpl; try reflexivity. rewrite gather_map; reflexivity. Qed.
 
 Lemma plan_get_not_keep s k s' : plan_get s k <> PKeep s'.
 Proof.
-  destruct k as [items|m bits|ixs]; simpl.
-  - destruct (basic_sels s items); discriminate.
+  destruct k as [items|m bits|ixs|b a]; simpl.
+  - unfold plan_basic. destruct (basic_sels s items); discriminate.
   - destruct (_ && _ && _)%bool; discriminate.
   - destruct s as [|n rest]; [discriminate|]. destruct (norm_all n ixs); discriminate.
+  - destruct (expand_ellipsis s b a) as [items|]; [|discriminate].
+    unfold plan_basic. destruct (basic_sels s items); discriminate.
 Qed.
 
 (* ------------------------------------------------- faithful = spec *)
